@@ -110,7 +110,7 @@ func genHostileTape(r *Rand, n int) []int {
 		case 2:
 			t[i] = mkDec(dHostile, r.Intn(24))
 		case 3:
-			t[i] = mkDec(dError, r.Intn(3)+3*r.Intn(26))
+			t[i] = mkDec(dError, r.Intn(nErrKinds)+nErrKinds*r.Intn(26))
 		case 4:
 			t[i] = mkDec(dReenter, r.Intn(144))
 		case 5:
